@@ -22,6 +22,15 @@ Streams
            help, get_references, get_context, get_signatures, complete, get_syntax_errors, and methods of
            the returned Names): after every call the position clauses for every returned object and
            the tokenize / ast oracle for every get_names answer
+  files    (B + C over histories of ONE project file, props/c17_files.py) the file is written with new / equal /
+           older modification times (mv of a backup, cp -p, two writes in one tick), removed, analysed from disk
+           (Script(path=p): jedi reads it) and as an unsaved editor buffer (Script(code, path=p)), the process is
+           restarted: every analysis is judged against the text it analyses (read from disk by the oracle itself)
+           with the tokenize / ast oracle and the position clauses
+  scriptparse (model) Model.ScriptParse.run (Script.__init__'s parse call with the cache policy the translator read,
+           over a transcription of parso's Grammar.parse / load_module / try_to_save_module) vs the real
+           jedi.Script(...) and grammar.parse(code=, path=, cache=, diff_cache=) on histories of one path with explicit
+           time stamps: which version's tree is returned, which text is kept as _code
 """
 import ast
 import io
@@ -36,8 +45,9 @@ from common import short
 from gen import api_walk, texts
 from props.c01 import raw_lines, load_local_known, exc_key
 
-MODELS = ['Names', 'ParsoPos']
-MODEL_TARGETS = ['JediModel.Lemmas.Tree', 'JediModel.Model.Names', 'JediModel.Lemmas.Names', 'JediModel.Model.ParsoPos']
+MODELS = ['Names', 'ParsoPos', 'ScriptParse']
+MODEL_TARGETS = ['JediModel.Lemmas.Tree', 'JediModel.Model.Names', 'JediModel.Lemmas.Names', 'JediModel.Model.ParsoPos',
+                 'JediModel.Model.ScriptParse', 'JediModel.Lemmas.ScriptParse']
 MANIFEST = dict(
     text='Theorems over Model.Text/Model.Tree: join(splitLines s) = s, splitLines s is never empty, the shape of '
          'every line (only \\n, \\r\\n and a lone \\r terminate a line), leaf_at_position (for every CRLF-safe tree '
@@ -53,9 +63,20 @@ MANIFEST = dict(
          'filter object (second call empty for every program, other flags undisturbed); api_memo_values_replayable / '
          'api_attributes_replayable: no memo decorator and no attribute in jedi/api/ keeps a one-shot iterator '
          '(translator tables over jedi/api/**/*.py). '
+         'Histories of ONE project file (Model.ScriptParse: Script.__init__\'s parse call over a transcription of parso\'s '
+         'Grammar.parse / load_module / try_to_save_module; state = in-memory parser cache + pickle + the file with its '
+         'mtime): script_tree_is_code - if the parse call never asks load_module (cache=False, script_parse_policy reads '
+         'it from the source) every Script of every history (writes with any time stamps, removals, restarts, buffer and '
+         'disk analyses in any order, interleaved cached parses of the path) works on the tree of exactly the text it '
+         'keeps as _code, which is the buffer or the file content at that moment; script_tree_is_code_source; '
+         'first_analysis_faithful (any policy: one analysis per file never shows it); kernel-checked counter-witnesses '
+         'for cache=<code is None> (buffer then disk; backup moved back with an older / equal mtime; via the pickle '
+         'after a restart). '
          'parso-level statement is partial (byte order mark, kernel-checked counter-witness, known finding). '
          'Tie: translator (position source, line lookup, sort key, def/ref filter, name source, memo tables) + '
-         'correspondence on parso trees and on enumeration histories.',
+         'correspondence on parso trees, on enumeration histories and on file histories (stream scriptparse: real '
+         'Script(...) / grammar.parse(...) with explicit time stamps vs Model.ScriptParse.run); direct oracle over file '
+         'histories in fresh interpreters (stream files).',
     note='Modelled not verified: parso tokenizer (enters as the dumped leaves; its position law and CRLF-safety '
          'are re-checked on every dumped tree), which names parso indexes (checked against tokenize/ast by stream '
          'tokens - a test).',
@@ -468,6 +489,9 @@ def compare(ctx, cases, answers):
         stream = key[0]
         if stream == 'leaves':
             check_leaves(ctx, key, impl, ans)
+        elif stream == 'scriptparse':
+            from props import c17_files
+            c17_files.compare_scriptparse(ctx, key, impl, ans)
         elif stream == 'linecode':
             _, text, line, b, af = key
             ctx.count('linecode', key, nontrivial=True, bucket='b=%d,a=%d' % (b, af))
@@ -530,6 +554,8 @@ def run(ctx):
     from props import c17_hist
     hist_job = c17_hist.Job(ctx)          # fresh-interpreter workers, concurrent with the streams below
     c17_hist.corpus_cases(ctx)
+    from props import c17_files
+    c17_files.corpus_cases(ctx)
     reqs = []
     cases = []
     import time
@@ -542,6 +568,8 @@ def run(ctx):
     lap('leaves')
     cases += stream_linecode_names(ctx, reqs)
     lap('linecode+names')
+    cases += c17_files.stream_scriptparse(ctx, reqs)
+    lap('scriptparse')
     stream_known(ctx)
     stream_tokens(ctx)
     lap('tokens')
@@ -571,6 +599,11 @@ def run(ctx):
         'translator (generator function, returned generator expression / map / filter / zip / chain, followed through '
         'the jedi functions it returns and through local names); state kept by other means is seen by stream '
         '`history` only - a test',
+        'Model.ScriptParse: a tree is identified with the text it was parsed from (the from-scratch parser and the diff '
+        'parser return the tree of the lines they are given: get_code() is compared by streams leaves / scriptparse); one '
+        'path; the garbage collection of parso\'s in-memory cache (600 entries) and the monthly clean-up of the cache '
+        'directory are not modelled; a restart is played by emptying parso\'s in-memory cache; parso itself is the '
+        'installed dependency (its two time-stamp comparisons are read by the translator)',
         'stream history: get_names with all_scopes=False is judged by sound bounds (nothing from inside a def / class / '
         'lambda body, at least the names of the top-level statements), exactly for all_scopes=True',
     ]
@@ -580,6 +613,9 @@ def replay(ctx, payload):
     import jedi
     inp = payload['input']
     print('input:', json.dumps(inp, ensure_ascii=True))
+    if 'file_history' in inp:
+        from props import c17_files
+        return c17_files.replay(ctx, inp, payload)
     if 'history' in inp:
         from props import c17_hist
         return c17_hist.replay(ctx, inp, payload)
